@@ -141,6 +141,7 @@ theorem expand_hom (i n : Int) : LocHom (fun l => expand l i n) (fun l => expand
   gJoined ls := by simp [expandK3, expandK3List_eq_any, expandList_eq_map]
   gOrdered ls := by simp [expandK3, expandK3List_eq_any]
   gCompl l := by simp [expandK3]
+  gLeaf l h := by cases l <;> simp_all [isLeafC, expandK3]
   leaf l h := expand_leaf_ok i n l h
 
 theorem shift_hom (i n : Int) : LocHom (fun l => shift l i n) (fun l => shiftK3 l i n) id where
@@ -151,6 +152,7 @@ theorem shift_hom (i n : Int) : LocHom (fun l => shift l i n) (fun l => shiftK3 
   gJoined ls := by simp [shiftK3, shiftK3List_eq_any, shiftList_eq_map]
   gOrdered ls := by simp [shiftK3, shiftK3List_eq_any]
   gCompl l := by simp [shiftK3]
+  gLeaf l h := by cases l <;> simp_all [isLeafC, shiftK3]
   leaf l h := shift_leaf_ok i n l h
 
 theorem reverse_hom (L : Int) : LocHom (fun l => reverse l L) (fun l => reverseK3 l L) List.reverse where
@@ -161,6 +163,7 @@ theorem reverse_hom (L : Int) : LocHom (fun l => reverse l L) (fun l => reverseK
   gJoined ls := by simp [reverseK3, reverseK3List_eq_any, reverseList_eq_map']
   gOrdered ls := by simp [reverseK3, reverseK3List_eq_any]
   gCompl l := by simp [reverseK3]
+  gLeaf l h := by cases l <;> simp_all [isLeafC, reverseK3]
   leaf l h := reverse_leaf_ok L l h
 
 theorem normalize_hom (L : Int) : LocHom (fun l => normalize l L) (fun l => normalizeK3 l L) id where
@@ -171,6 +174,7 @@ theorem normalize_hom (L : Int) : LocHom (fun l => normalize l L) (fun l => norm
   gJoined ls := by simp [normalizeK3, normalizeK3List_eq_any, normalizeList_eq_map]
   gOrdered ls := by simp [normalizeK3, normalizeK3List_eq_any]
   gCompl l := by simp [normalizeK3]
+  gLeaf l h := by cases l <;> simp_all [isLeafC, normalizeK3]
   leaf l h := normalize_leaf_ok L l h
 
 /-! ### leaves: coordinates -/
